@@ -321,6 +321,20 @@ def run(ctx):
     good = bool(cmpshapes) and all(s_[0] == "natom" and ("users" in s_[1] or "users_default" in s_[1] or "for_user" in s_[1] or "sender" in s_[1]) and "notifications" in s_[2] for s_ in cmpshapes) \
         and not [s_ for s_ in shapes if s_[0] == "other"] and not [s_ for s_ in shapes if s_[0] == "const" and s_[1] is True]
     ctx.check(good, rule4, f"{rule4}:formula", w.where(f), bad_msg=f"{sorted(shapes)[:4]}")
+    # ---- the helpers and the authorization rules read the same map out of a JSON object with a repeated key --------------------------------
+    rule5 = "C20.duplicate-keys"
+    ctx.rule(rule5, "the visitor behind the `users` / `events` maps of the power-levels content (btreemap_deserialize_v1_powerlevel_values) stores every entry with "
+                    "BTreeMap::insert, so the LAST occurrence of a repeated key wins - as in the serde_json::Map the authorization rules read the same content "
+                    "through; first-wins (entry().or_insert, contains_key guards) makes the helpers answer from another level than the rules")
+    vm = [g for g in w.all_fns() if "body" in g and g["path"].endswith("::visit_map") and "btreemap_deserialize_v1_powerlevel_values" in g["path"]]
+    if len(vm) != 1:
+        ctx.missing(rule5, f"{rule5}:visitor", "visit_map of btreemap_deserialize_v1_powerlevel_values not found")
+    else:
+        names = [M.callee_name(c) for _, c in M.calls(vm[0]["body"]) if "btree::map" in M.callee_name(c)]
+        stores = [n_.rsplit("::", 1)[-1] for n_ in names if n_.rsplit("::", 1)[-1] in ("insert", "entry", "or_insert", "or_insert_with", "try_insert", "contains_key", "get", "extend")]
+        ctx.check(stores == ["insert"], rule5, f"{rule5}:visitor", w.where(vm[0]),
+                  bad_msg=f"entries are stored through {stores or names}: with a repeated key inside `users` / `events` the typed content keeps another occurrence than the "
+                          f"JSON object the authorization rules evaluate (e.g. \"@m:x\": 100, \"@m:x\": 0 - helper says 100, the rules say 0)")
     ctx.extra_cov = {"programs": 11, "disagreements_checked": n, "samples": [{"helper": "user_can_unban_user", "orderings": "a,t,kick,ban in {0..3}", "model": "member_leave with a banned target"}]}
     ctx.assumptions += ["actor is a joined member of the room (the helpers do not know memberships)"]
 
